@@ -186,7 +186,8 @@ def build_model():
         ex = os.path.join(BUILD, "extract")
         os.makedirs(ex, exist_ok=True)
         srcs = [os.path.join(COQ, f) for f in coq_files() if f.startswith("Model/")]
-        srcs += [os.path.join(COQ, "Extract.v"), os.path.join(ROOT, "ocaml", "driver.ml")]
+        mls = ["driverlib.ml", "schedgen.ml", "driver.ml"]
+        srcs += [os.path.join(COQ, "Extract.v")] + [os.path.join(ROOT, "ocaml", m) for m in mls]
         stamp = os.path.join(ex, "stamp")
         h = src_hash(srcs)
         if os.path.exists(stamp) and open(stamp).read() == h and os.path.exists(XSMODEL):
@@ -194,9 +195,10 @@ def build_model():
         rc, out = sh(["timeout", "600", "coqc", "-Q", ".", "XS", "Extract.v"], cwd=COQ)
         if rc:
             raise BuildError("extraction", out)
-        rc, out = sh(["cp", os.path.join(ROOT, "ocaml", "driver.ml"), ex])
-        rc, out = sh(["ocamlfind", "ocamlopt", "-O3", "-w", "-a", "xsmodel.mli", "xsmodel.ml",
-                      "driver.ml", "-o", XSMODEL], cwd=ex)
+        for m in mls:
+            sh(["cp", os.path.join(ROOT, "ocaml", m), ex])
+        rc, out = sh(["ocamlfind", "ocamlopt", "-O3", "-w", "-a", "xsmodel.mli", "xsmodel.ml"] + mls
+                     + ["-o", XSMODEL], cwd=ex)
         if rc:
             raise BuildError("ocaml", out)
         open(stamp, "w").write(h)
